@@ -83,7 +83,7 @@ Proof.
   - rewrite wf_bytes_cons in Hwf. apply andb_prop in Hwf. destruct Hwf as [Hx Hr].
     unfold wf_byte in Hx. cbn [fold_left]. rewrite lor_shift8 by lia.
     rewrite IH by (assumption || lia).
-    unfold be_value. cbn [be_acc length]. rewrite (be_acc_shift (0 * 256 + x)%N).
+    unfold be_value. cbn [be_acc length]. rewrite (be_acc_shift (256 * 0 + x)%N).
     rewrite Nat2Z.inj_succ, Z.pow_succ_r by lia. fold (be_value r).
     rewrite N2Z.inj_add, N2Z.inj_mul, N2Z.inj_pow. rewrite nat_N_Z. 
     change (Z.of_N 256) with 256. lia.
@@ -106,7 +106,7 @@ Proof.
   - cbn. now rewrite Z.mod_1_r.
   - cbn [tail_bytes]. unfold be_value. cbn [be_acc]. rewrite be_acc_shift.
     rewrite tail_bytes_length. rewrite N2Z.inj_add, N2Z.inj_mul, N2Z.inj_pow, nat_N_Z, IH.
-    rewrite N.mul_0_l, N.add_0_l. rewrite Z2N.id by (apply Z.mod_pos_bound; lia).
+    rewrite N.mul_0_r, N.add_0_l. rewrite Z2N.id by (apply Z.mod_pos_bound; lia).
     rewrite Z.shiftr_div_pow2 by lia.
     rewrite Nat2Z.inj_succ, Z.pow_succ_r by lia.
     replace (2 ^ (Z.of_nat k * 8)) with (256 ^ Z.of_nat k)
@@ -554,7 +554,7 @@ Proof.
   split; [rewrite <- H0; exact Hv|]. rewrite <- H0. clear H0 Hv.
   unfold be_value. cbn [be_acc]. rewrite be_acc_shift. rewrite Hlen. fold (be_value extra).
   rewrite N2Z.inj_add, N2Z.inj_mul, N2Z.inj_pow, Z_nat_N, Z2N.id by lia.
-  rewrite N.mul_0_l, N.add_0_l. change (Z.of_N 256) with 256.
+  rewrite N.mul_0_r, N.add_0_l. change (Z.of_N 256) with 256.
   unfold sext, payload in *. set (E := Z.of_N (be_value extra)) in *. set (b := Z.of_N b0) in *.
   clearbody E b. clear Hlen Hex. unfold prefix_of in *.
   destruct (_ >=? _) eqn:Ege; clear Ege; kcases k; cbn in Hp |- *; lia.
